@@ -4,7 +4,7 @@
    known q h = bits [0,8q] and [57,63] of h = what a bucket keeps next to an element of class q. *)
 From Coq Require Import ZArith List.
 From MomoCommon Require Import GenPrelude.
-From C12 Require Gen_Base Gen_O2 Gen_O2MP Gen_P4 Gen_One Known P4_Model P4_Slot P4_Bucket O2_Slot Chain O2_Bucket MP_Open2N2 TableO2 TableO2_Proofs TableP4 TableP4_Proofs TableOne TableOne_Proofs Refuted TableO2_Find SameCode Gen_O2set TableP4_Find Gen_P4A P4A_Refine Gen_P4A16 P4A_Refine16 Chains PtrState Gen_Ptr32 Gen_Ptr48 Gen_Ptr64 GensFind Gen_HSFind Gen_HSFindIn HSFind_Refine Gen_HSAdd Gen_HSReloc HSReloc_Refine Establish NoExn.
+From C12 Require Gen_Base Gen_O2 Gen_O2MP Gen_P4 Gen_One Known P4_Model P4_Slot P4_Bucket O2_Slot Chain O2_Bucket MP_Open2N2 TableO2 TableO2_Proofs TableP4 TableP4_Proofs TableOne TableOne_Proofs Refuted TableO2_Find SameCode Gen_O2set TableP4_Find Gen_P4A P4A_Refine Gen_P4A16 P4A_Refine16 Chains PtrState Gen_Ptr32 Gen_Ptr48 Gen_Ptr64 GensFind Gen_HSFind Gen_HSFindIn HSFind_Refine Gen_HSAdd Gen_HSReloc HSReloc_Refine Establish NoExn NoExnOne.
 Import ListNotations.
 Local Open Scope Z_scope.
 
@@ -1259,3 +1259,60 @@ Theorem C12_open2n2_find_after_any_chain_of_growths_no_exception :
       (forall k, TableO2_Proofs.Present L t k -> exists r, TableO2.find t' L' k (hash k) = Ok r /\ TableO2_Find.hit hash L' t' k r).
 Proof. exact NoExn.grow_chain_find_ok. Qed.
 Print Assumptions C12_open2n2_find_after_any_chain_of_growths_no_exception.
+
+(* ---- LimP4: the `Exn => True` escape is NOT taken when migrating into a fresh larger table (linear probing covers the table; buckets
+   hold up to 4 elements: #old + #new <= 4 * 2^L < 4 * 2^newL) ---- *)
+(* pvAddNogrow on a LimP4 table throws "Hash table is full" only when EVERY bucket holds 4 elements; on success exactly one bucket gains one *)
+Theorem C12_limp4_addnogrow_exception_only_when_all_buckets_full :
+  forall H hash, 4 <= H <= 8 -> forall L t code key, 0 <= L <= 63 -> TableP4_Proofs.PTinv H hash L t -> 0 <= code < 2 ^ 64 ->
+    match TableP4.padd_nogrow H t L code key with
+    | Ok t' => exists idx, 0 <= idx < 2 ^ L /\ forall j, TableP4.pcnt (t' j) = if Z.eqb j idx then TableP4.pcnt (t j) + 1 else TableP4.pcnt (t j)
+    | Exn => forall b, 0 <= b < 2 ^ L -> TableP4.pcnt (t b) = 4
+    | _ => False
+    end.
+Proof. exact NoExn.padd_nogrow_count. Qed.
+Print Assumptions C12_limp4_addnogrow_exception_only_when_all_buckets_full.
+
+Theorem C12_limp4_element_found_after_growth_no_exception :
+  forall H mm hash, 4 <= H <= 8 -> 1 <= mm <= 4 -> (forall k, 0 <= hash k < 2 ^ 64) -> forall L newL, 0 <= L -> L < newL <= 63 ->
+  forall told, TableP4_Proofs.PTinv H hash L told ->
+    exists told' tnew calls, TableP4.pmigrate H mm hash told L newL = Ok (told', tnew, calls) /\ TableP4_Proofs.PTinv H hash newL tnew /\
+      (forall k, TableP4_Proofs.PPresent L told k -> TableP4_Proofs.PFound hash newL tnew k).
+Proof. exact NoExn.pmigrate_found_ok. Qed.
+Print Assumptions C12_limp4_element_found_after_growth_no_exception.
+
+Theorem C12_limp4_element_found_after_growth_generated_loops_no_exception :
+  forall H mm hash, 4 <= H <= 8 -> 1 <= mm <= 4 -> (forall k, 0 <= hash k < 2 ^ 64) ->
+  forall L newL told, 0 <= L -> L < newL <= 63 -> TableP4_Proofs.PTinv H hash L told ->
+    exists told' tnew, HSReloc_Refine.p4_gen_reloc H mm hash L newL told (TableP4.pempty_table H mm) = Ok (told', tnew) /\
+      TableP4_Proofs.PTinv H hash newL tnew /\ (forall k, TableP4_Proofs.PPresent L told k -> TableP4_Proofs.PFound hash newL tnew k).
+Proof. exact NoExn.p4_gen_reloc_found_ok. Qed.
+Print Assumptions C12_limp4_element_found_after_growth_generated_loops_no_exception.
+
+Theorem C12_limp4_find_after_any_chain_of_growths_no_exception :
+  forall H mm hash, 4 <= H <= 8 -> 1 <= mm <= 4 -> (forall k, 0 <= hash k < 2 ^ 64) ->
+  forall Ls L t, 0 <= L <= 63 -> Chains.increasing L Ls -> TableP4_Proofs.PTinv H hash L t ->
+    exists t' L', TableP4.pgrow_chain H mm hash t L Ls = Ok (t', L') /\ HSReloc_Refine.p4_gen_grow_chain H mm hash t L Ls = Ok (t', L') /\
+      TableP4_Proofs.PTinv H hash L' t' /\
+      (forall k, TableP4_Proofs.PPresent L t k -> exists r, TableP4.pfind t' L' k (hash k) = Ok r /\ TableP4_Find.phit hash L' t' k r).
+Proof. exact NoExn.pgrow_chain_find_ok. Qed.
+Print Assumptions C12_limp4_find_after_any_chain_of_growths_no_exception.
+
+(* ---- BucketOne (one element per bucket, linear probing): the same ---- *)
+Theorem C12_one_addnogrow_exception_only_when_all_buckets_full :
+  forall L t code key, 0 <= L <= 63 ->
+    match TableOne.oadd_nogrow t L code key with
+    | Ok t' => exists idx, 0 <= idx < 2 ^ L /\ forall j, NoExnOne.oc (t' j) = if Z.eqb j idx then NoExnOne.oc (t j) + 1 else NoExnOne.oc (t j)
+    | Exn => forall b, 0 <= b < 2 ^ L -> Gen_One.IsFull (TableOne.ost (t b)) = true
+    | _ => False
+    end.
+Proof. exact NoExnOne.oadd_nogrow_count. Qed.
+Print Assumptions C12_one_addnogrow_exception_only_when_all_buckets_full.
+
+Theorem C12_one_element_found_after_growth_no_exception :
+  forall hash, (forall k, 0 <= hash k < 2 ^ 64) -> forall L newL, 0 <= L -> L < newL <= 63 ->
+  forall told, TableOne_Proofs.OTinv hash L told ->
+    exists told' tnew, TableOne.omigrate hash told L newL = Ok (told', tnew) /\ TableOne_Proofs.OTinv hash newL tnew /\
+      (forall k, TableOne_Proofs.OPresent L told k -> TableOne_Proofs.OFound hash newL tnew k).
+Proof. exact NoExnOne.omigrate_found_ok. Qed.
+Print Assumptions C12_one_element_found_after_growth_no_exception.
